@@ -151,6 +151,13 @@ def sameFields (a b : List String) : Bool :=
 /-- "has exactly the declared fields" -/
 def hasDeclaredFields (s : Schema) (cols : List String) : Bool := sameFields cols s.declaredNames
 
+/-- no row lacks a value: no NaN cell ("an empty list of n rows has exactly the declared fields" — a field whose
+value is missing is not there) -/
+def noMissing (rs : List Rec) : Bool := rs.all fun r => r.all fun kv => kv.2 != Cell.nan
+
+/-- every row has exactly the given fields, each once -/
+def rowsHaveFields (names : List String) (rs : List Rec) : Bool := rs.all fun r => sameFields (r.map (·.1)) names
+
 /-- "an item built from a row carries that row's values": every field of the row that the item class is
 allowed to hold is in the item with the row's value -/
 def itemCarries (names : List String) (row item : Rec) : Bool :=
